@@ -337,3 +337,75 @@ func coversHeight(info string, h int32) bool {
 	}
 	return n > 0 && h >= a && h <= b
 }
+
+// reOffend: a host the service has never dialled keeps two connections open (it dialled in twice). The first one
+// announces the forbidden header and delivers it when asked: banned and disconnected. The ban runs out while nobody of
+// that host tries to connect. Then the second connection does the same. The host is banned again: a newcomer of that
+// host that dials in right afterwards must not stay connected. "Still banned" is judged only when the verdict comes
+// within half the ban duration after the second offence was SENT (else inconclusive); "elapsed" after ban + 0.5 s.
+func (x *runner) reOffend() {
+	s := x.s
+	at := 0
+	for _, ns := range s.Nodes {
+		if ns.Kind == "forbidden" && !ns.OrphanForbidden {
+			at = ns.ForbiddenAt
+		}
+	}
+	if at == 0 || x.w.Forbidden == nil || s.BanDurationMs < 2000 {
+		return
+	}
+	ban := time.Duration(s.BanDurationMs) * time.Millisecond
+	chain := append(append([]refmodel.Hdr(nil), x.w.Honest[:at-1]...), *x.w.Forbidden)
+	g, err := x.rig.AddNode("re-offender", chain, false)
+	if err != nil {
+		x.count("reoffend_not_run", 1)
+		return
+	}
+	x.rig.Refuse(g, true)
+	const ip = "127.0.0.77"
+	addr := "127.0.0.1:" + x.rig.Port
+	c1, err1 := g.DialService(addr, ip)
+	c2, err2 := g.DialService(addr, ip)
+	if err1 != nil || err2 != nil || !x.waitFor(func() bool { return c1.Ready() && c2.Ready() }, 20*time.Second) || !x.quiesce("re-offender connected twice") {
+		x.count("reoffend_not_run", 1)
+		return
+	}
+	if c1.AnnounceInv() != nil || !x.quiesce("first offence") {
+		x.count("reoffend_not_run", 1)
+		return
+	}
+	if x.stillConnected(c1) {
+		x.count("reoffend_first_offence_left_the_sender_connected", 1) // judged by the other oracles
+		return
+	}
+	if !x.stillConnected(c2) {
+		x.count("reoffend_second_connection_closed_with_the_first", 1) // nothing left to offend with
+		return
+	}
+	time.Sleep(ban + 500*time.Millisecond)
+	t1 := time.Now()
+	if c2.AnnounceInv() != nil || !x.quiesce("second offence") {
+		x.count("reoffend_not_run", 1)
+		return
+	}
+	c3, err := g.DialService(addr, ip)
+	if err != nil {
+		x.count("reoffend_newcomer_refused", 1)
+		return
+	}
+	x.waitFor(func() bool { return c3.Ready() || c3.Dead() }, 10*time.Second)
+	if !x.quiesce("newcomer of the banned host") {
+		return
+	}
+	still := x.stillConnected(c3)
+	dt := time.Since(t1)
+	x.count("reoffend_sequences_run", 1)
+	switch {
+	case dt > ban/2:
+		x.count("reoffend_verdict_too_late_to_judge", 1)
+	case still:
+		x.fail("banned-host-connected|second-offence-after-elapsed-ban|"+x.class(), fmt.Sprintf("a host was banned, the ban (%v) elapsed with no connection attempt of that host, a second connection of the host then delivered the forbidden header again, and %v later a new connection of that host is admitted and stays open", ban, dt))
+	default:
+		x.count("reoffend_newcomer_refused", 1)
+	}
+}
